@@ -1,24 +1,32 @@
-"""C14 (one clause): no feature-gated kernel is reachable without its feature check and
-every dispatcher keeps an ungated fallback. Decides dispatch soundness, not kernel values."""
+"""C14 (two clauses): no feature-gated kernel is reachable without its feature check and every dispatcher keeps an
+ungated fallback (R-TF); comparison kernels never order bytes with a signed lane comparison (R-SIGNED).
+Decides dispatch soundness and one sign-correctness condition, not kernel values."""
 from vlib import fixtures
-from rules import tf
+from rules import tf, simdsign
 
 
 def run(ctx):
     fx = ctx.facts("default")
-    fixtures.run(ctx, ['tf'])
+    fixtures.run(ctx, ['tf', 'simdsign'])
     tf.run(ctx, fx)
     ctx.floor("R-TF.tf_fns", 100)
     ctx.floor("R-TF.sites", 100)
     ctx.floor("R-TF.dispatchers", 40)
+    # byte comparison kernels: the order of two bytes is never decided by a signed lane comparison
+    simdsign.run(ctx, fx)
+    ctx.floor("R-SIGNED.kernels", 12)
     return dict(
-        level_note="decides only the dispatch clause of C14 (feature-gated kernels are entered only under an implying "
-                   "runtime check; a portable path exists). Kernel-vs-scalar value equality is NOT decided.",
+        level_note="decides the dispatch clause of C14 (feature-gated kernels are entered only under an implying "
+                   "runtime check; a portable path exists) and one necessary condition of the compare clause (no unbiased "
+                   "signed 8-bit lane comparison in a cmp/compare kernel). Kernel-vs-scalar value equality, tail handling and "
+                   "window stepping are NOT decided.",
         explanation="R-TF over the whole crate: for every call whose callee carries #[target_feature] and whose caller "
                     "does not, the set of features guaranteed by dominating runtime checks (std_detect / raw_cpuid roots, "
                     "propagated through struct fields, tier enums and selector functions by a crate-wide who-may-write "
                     "inference) must cover the callee's features; unsafe fns delegate the obligation to their callers; "
-                    "every safe dispatcher has a path to return avoiding all gated calls.",
+                    "every safe dispatcher has a path to return avoiding all gated calls. R-SIGNED: in every function named "
+                    "*cmp*/*compare*/*less*/*order* that calls x86 intrinsics, _mm*_cmp{gt,lt,ge,le}_epi8[_mask] and "
+                    "_mm*_{min,max}_epi8 are allowed only on operands that pass through an xor/add/sub bias.",
         trusted_base=["rustc nightly MIR construction", "zfacts extractor", "rules/tf.py",
                       "x86 feature implication tables (architectural + documented micro-architectural)"],
         rule_text="obligation = (call site of a #[target_feature] callee, required feature set); non-trivial when the "
